@@ -12,6 +12,8 @@
 -/
 import DiplomatModel.DartKt
 import DiplomatModel.Props.C01
+import DiplomatModel.KtNative
+import DiplomatModel.Lemmas.Cpp
 namespace DiplomatModel.Props.C07
 open DiplomatModel.Lower DiplomatModel.AbiGen DiplomatModel.DartKt DiplomatModel.Props.C05 DiplomatModel.Props.C01
 
@@ -248,5 +250,70 @@ theorem dart_ty_agree (env : Env) (t : TyName) (c : CTy) (d : NTy) (h128 : has12
 example : (dartParamTy C01.envEx (.ref .anon false (.named "Op"))).isSome = true
     ∧ inErrs C01.envEx C01.supEx false (.ref .anon false (.named "Op")) = [] := by decide
 example : (dartPrim .u16).bind dartFfiAbi = some [.int 16 false] ∧ (ktPrim .u16).bind jnaAbi = some [.int 16 false] := by decide
+
+/-! ### Kotlin: the JNA declaration (`KtNative`, exact-text tie `kotlin-native-signature`) -/
+
+open DiplomatModel.KtNative DiplomatModel.CppMethod in
+/-- **Same parameter count and order as the C function.** With at most one `DiplomatWrite` parameter, the JNA
+    declaration lists exactly as many parameters as the C prototype of C01's model: the receiver first, one per
+    parameter in order, the write buffer last. -/
+theorem kt_native_arity (env : Env) (pfx owner : String) (m : AMethod) (ks : List String) (ps : List (String × CTy))
+    (hw : (m.params.filter fun p => match p.2 with | .write => true | _ => false).length ≤ 1)
+    (hk : ktNativeParams env owner m = some ks) (hc : cParams env pfx owner m = some ps) :
+    ks.length = ps.length := by
+  unfold ktNativeParams at hk
+  unfold cParams at hc
+  cases hs : cSelf env owner m with
+  | none => simp [hs] at hc
+  | some sl =>
+    cases hp : optMapM (cParam1 env (abiName pfx owner m.name)) m.params with
+    | none => simp [hs, hp] at hc
+    | some pl =>
+      simp only [hs, hp, Option.some.injEq] at hc
+      subst hc
+      have h2 : pl.length = m.params.length := optMapM_length _ _ _ hp
+      have hsplit := params_split m hw
+      cases hself : m.self with
+      | none =>
+        have h3 : sl = [] := by unfold cSelf at hs; simp [hself] at hs; exact hs
+        simp only [hself] at hk
+        cases hconv : optMapM (fun p : String × TyName => (ktNativeTy env p.2).map fun t => p.1 ++ ": " ++ t) (cppParams m) with
+        | none => simp [hconv] at hk
+        | some conv =>
+          simp only [hconv, Option.some.injEq] at hk
+          subst hk
+          have h1 : conv.length = (cppParams m).length := optMapM_length _ _ _ hconv
+          simp only [List.length_append, h1, h2, h3, List.length_nil, List.nil_append, Nat.zero_add]
+          split at hsplit <;> simp_all <;> omega
+      | some s =>
+        have h3 : sl.length = 1 := by
+          unfold cSelf at hs
+          simp only [hself, Option.map_eq_some_iff] at hs
+          obtain ⟨c, _, rfl⟩ := hs; rfl
+        simp only [hself] at hk
+        cases hks : ktSelf env owner with
+        | none => simp [hks] at hk
+        | some a =>
+          have ha : a.length = 1 := by
+            unfold ktSelf at hks
+            split at hks <;> simp at hks <;> subst hks <;> rfl
+          cases hconv : optMapM (fun p : String × TyName => (ktNativeTy env p.2).map fun t => p.1 ++ ": " ++ t) (cppParams m) with
+          | none => simp [hks, hconv] at hk
+          | some conv =>
+            simp only [hks, hconv, Option.some.injEq] at hk
+            subst hk
+            have h1 : conv.length = (cppParams m).length := optMapM_length _ _ _ hconv
+            simp only [List.length_append, h1, h2, h3, ha]
+            split at hsplit <;> simp_all <;> omega
+
+open DiplomatModel.KtNative in
+/-- a returned `bool` is declared `Byte` (one byte, as C's `bool`), every other returned primitive as in parameters -/
+theorem kt_native_ret_prim (p : Prim) : ktPrimNative p = if p = .bool then some "Byte" else ktPrim p := by
+  cases p <;> rfl
+
+open DiplomatModel.KtNative in
+example : ktNativeText C01.envEx "" "Op"
+    ⟨"m", some ⟨true, .anon, false⟩, [("a", .prim .u16), ("o", .opt (.ref .anon false (.named "Op")) .std), ("w", .write)],
+      some (.res .unit (.named "En") .std)⟩ = some "fun Op_m(handle: Pointer, a: FFIUint16, o: Pointer?, write: Pointer): ResultUnitInt" := by decide
 
 end DiplomatModel.Props.C07
